@@ -198,6 +198,7 @@ def space(ctx):
 
 
 def shards(ctx):
+    import androguard.core.axml      # noqa: loaded once in the runner (never called there), inherited by the forked workers
     s = [("A", hi) for hi in range(0, 256, 16)]          # 16 shards x 4096 halves x 4
     s += [("B", hi) for hi in range(0, 256, 32)]         # 8 shards x 8192 halves x 2
     s += [("C", c) for c in LOW]                         # 26 shards x 26 x 1297
